@@ -642,6 +642,7 @@ def main():
 LIB_RENAME = {}
 import os
 PTR_WORD_COPY = os.environ.get('LL2C_PTRWORD', '1') == '1'
+NEW_MODE = os.environ.get('LL2C_NEW', 'words')
 
 # environment functions the TU only declares: contract stubs (listed in evidence assumptions)
 def stub_body(name, fty):
@@ -1071,6 +1072,12 @@ def translate_call(s, dst, decls, goto, bl):
     else:
         if name == '@_Znwm' and dst:
             mm = re.fullmatch(r'\(\(uint64_t\)(\d+)ULL\)', args[0].c)
+            if mm and NEW_MODE == 'words' and int(mm.group(1)) % 8 == 0 and 0 < int(mm.group(1)) <= 512:
+                # heap objects the IR only touches through raw offsets (boost::bind functors, any holders): allocate them
+                # as an array of pointer-sized words, so that CBMC keeps one SSA symbol per word and a pointer stored in one
+                # word stays a constant even when a neighbouring word holds a symbolic payload.  Same size, same C semantics.
+                decls[dst] = 'char*'
+                return ['%s = (char*)malloc(sizeof(char*[%d])); LL2C_ASSUME(%s != 0);' % (dst, int(mm.group(1)) // 8, dst)]
             if mm and len(NEW_TYPES.get(int(mm.group(1)), ())) == 1:
                 decls[dst] = 'char*'
                 return ['%s = (char*)malloc(sizeof(%s)); LL2C_ASSUME(%s != 0);' % (dst, list(NEW_TYPES[int(mm.group(1))])[0], dst)]
